@@ -1,7 +1,7 @@
 """Effect / purity analysis shared by C13 and C16 (DESIGN §3/C13)."""
 import re
 
-from .analysis import CallGraph, Origins, fmt_terms
+from .analysis import CallGraph, Origins, fmt_terms, closure_capture_origins
 
 ENTRY_ROOTS = [
     "parser::parse",
@@ -314,10 +314,21 @@ def check_effects(ctx, lib, cfgname="default", prefix=""):
                 if t["callee"] == "Expression::<'a>::new":
                     o = Origins(c, lib)
                     a = [o.of_operand(x) for x in t["args"]]
-                    # closure env fields: captured `expression` and `self`
+                    # the tree is the closure's own argument; text and runtime are the captured
+                    # expression parameter and `self` of Runtime::compile (resolved through the
+                    # closure aggregate in the parent body, not by variable name)
                     ok = all(x[0] == "param" and x[1] == 2 for x in a[1])
-                    names = {d["name"]: d for d in c.j["debug"]}
-                    ok = ok and "self" in names and "expression" in names
+                    caps = closure_capture_origins(lib, rc, c.deff)
+
+                    def captured(terms):
+                        out = set()
+                        for x in terms:
+                            if x[0] == "field" and x[1] == ("closure_env",) and caps is not None and str(x[2]).isdigit() and int(x[2]) < len(caps):
+                                out |= set(caps[int(x[2])])
+                            else:
+                                out.add(("?",))
+                        return out
+                    ok = ok and captured(a[0]) == {("param", 2)} and captured(a[2]) == {("param", 1)}
         pc = [t for bb, t in rc.calls() if t["callee"] == "parser::parse"]
         ok = ok and len(pc) == 1 and Origins(rc, lib).of_operand(pc[0]["args"][0]) == {("param", 2)}
         ctx.check(ok, R("clone-is-same-triple"), "runtime-compile", "Runtime::compile = parse(expression).map(|ast| Expression::new(expression, ast, self))", rc.span)
